@@ -2265,7 +2265,98 @@ Proof.
       rewrite E1, E2. apply rtk_eq_same_key; [rewrite (Kt y Hyn), Art, Hr; reflexivity|rewrite (Kt y Hyn), Art; exact Anz]. }
     rewrite Esk, Hlv. destruct (ri_poph yi); [|contradiction]. destruct (Nat.eqb_spec y n); [lia|reflexivity]. }
   assert (HR' : R2 None m' s) by exact (R2_issue_tr m m' s ni HR Hl Hld Er Ei Kt Ks Nd Na Nl Ke).
-  admit.
-Admitted.
+  assert (Hkeys : g_pool cfg = true -> m_keys m = keys s) by (intros Hp; apply (q_keys _ _ _ H1 Hp)).
+  assert (Hn : List.length (reqs (set_out [] s)) = n) by (cbn [reqs set_out]; unfold n; symmetry; exact Hl).
+  unfold step. apply (K2_do_issue m' u p (set_out [] s) ni); rewrite ?Hn; auto.
+  - apply R2_out, HR'.
+  - cbn [dials set_out]. rewrite Hld. unfold n. symmetry. exact Hl.
+  - rewrite Er, nth_error_app2, Nat.sub_diag by (fold n; lia). reflexivity.
+  - rewrite Er, app_length. cbn [List.length]. fold n. lia.
+  - intros Hp k0 Ek0. unfold rtk, req_key. rewrite Er, nth_error_app2, Nat.sub_diag by (fold n; lia). cbn [nth_error]. rewrite Nk. fold k.
+    change (nth u (g_uris cfg) None) with k in Ek0. rewrite Ek0. cbn [key_tok]. rewrite Ek. unfold issue_keys. fold k. rewrite Ek0, Hp, (Hkeys Hp). reflexivity.
+  - intros Hp k0 c Ek0. cbv zeta. change (nth u (g_uris cfg) None) with k in Ek0. set (s0 := set_woken (woken (set_out [] s) ++ [false]) (set_out [] s)).
+    intros Hpop Hs Ho. rewrite Nph.
+    destruct (key_insert_spec k0 s0) as (_ & Et & _ & _). pose proof (get_tok_key_insert k0 s0) as Gt.
+    assert (Etok : issue_tok m u = fst (key_insert k0 s0)).
+    { unfold issue_tok, issue_keys. fold k. rewrite Ek0, Hp, (Hkeys Hp). rewrite Et. reflexivity. }
+    rewrite Etok. destruct (key_insert k0 s0) as [t s1] eqn:Eki. cbn [fst snd] in *.
+    destruct (pool_pop_removed (g_timeout cfg) t s1 c Hpop) as [l Hsk].
+    assert (Ebef : idle_of (o_snap (m_prev m)) t = map fst (p_idle (get_tok s1 t))).
+    { rewrite (iv_p _ _ _ HI), idle_of_snapshot. rewrite Gt. reflexivity. }
+    assert (Eaft : List.length (idle_of (o_snap ob) t) = List.length (p_idle (get_tok (snd (pool_pop (g_timeout cfg) t s1)) t))).
+    { unfold ob, observe. cbn [o_snap]. rewrite idle_of_snapshot, map_length. f_equal. f_equal.
+      unfold step, do_issue. fold s0. fold k. rewrite Ek0, Hp. cbn [negb]. rewrite Eki.
+      destruct (pool_pop (g_timeout cfg) t s1) as [found s2] eqn:Epp. cbn [fst snd] in *. subst found. reflexivity. }
+    rewrite Ebef, Eaft, Hsk.
+    destruct (share_of_get _ _ Hs) as (cn & Hc & Hsh). assert (Hlt : c < List.length (m_conns m)).
+    { pose proof (q_lc _ _ _ H1) as Lc. unfold tv_of in Lc. cbn [t_cv] in Lc. rewrite map_length in Lc. rewrite Lc. eapply nth_lt. exact Hc. }
+    destruct (nth_ex _ _ Hlt) as [y Hy]. rewrite Hy.
+    assert (Esh : ci_share y = true) by (rewrite <- Hsh; apply (q_share _ _ _ H1 c (cv_of y) cn (Cv c y Hy) Hc)).
+    assert (Ecl : ci_closed y = None). { apply (Hoc c cn y Hc); [|exact Hy]. unfold is_open in Ho. rewrite Hc, Hsh in Ho. exact Ho. }
+    rewrite Esh, Ecl. discriminate.
+Qed.
+
+Lemma step_K2 m s o : Inv2 m s -> K2 None (track_op cfg m o (observe (step cfg s o))) (step cfg s o).
+Proof.
+  intros HI. destruct o; try (apply step_K2_plain; [discriminate|exact HI]). apply step_K2_issue, HI.
+Qed.
+
+Lemma offer_keep ob : forall l m, m_reqs (fold_left (track_offer ob) l m) = m_reqs m /\ m_keys (fold_left (track_offer ob) l m) = m_keys m /\ m_i (fold_left (track_offer ob) l m) = m_i m.
+Proof.
+  induction l as [|e l IH]; intros m; cbn [fold_left]; [auto|]. destruct (IH (track_offer ob m e)) as (A & B & C). rewrite A, B, C.
+  destruct e; auto. destruct ok; auto. cbn [track_offer]. destruct (nth_error (m_conns m) c); auto.
+Qed.
+Lemma stamp_keep prev : forall l m, m_reqs (fold_left (track_idle_stamp prev) l m) = m_reqs m /\ m_keys (fold_left (track_idle_stamp prev) l m) = m_keys m /\ m_i (fold_left (track_idle_stamp prev) l m) = m_i m.
+Proof.
+  assert (A : forall sn cs m, let m2 := fold_left (fun m c => if mem c (idle_of prev (sn_token sn)) then m else ci_upd (set_ci_idle_time (m_time m)) c m) cs m in
+            m_reqs m2 = m_reqs m /\ m_keys m2 = m_keys m /\ m_i m2 = m_i m).
+  { intros sn. induction cs as [|c cs IH]; intros m; cbn [fold_left]; [auto|]. cbv zeta in *.
+    destruct (IH (if mem c (idle_of prev (sn_token sn)) then m else ci_upd (set_ci_idle_time (m_time m)) c m)) as (X & Y & Z). rewrite X, Y, Z.
+    destruct (mem c _); auto. }
+  induction l as [|sn l IH]; intros m; cbn [fold_left]; [auto|]. destruct (IH (track_idle_stamp prev m sn)) as (X & Y & Z). rewrite X, Y, Z. apply (A sn (sn_idle sn) m).
+Qed.
+
+Lemma Inv2_next m s o : Inv2 m s -> Inv2 (track cfg m o (observe (step cfg s o))) (step cfg s o).
+Proof.
+  intros HI. pose proof (step_K2 m s o HI) as (_ & HR). destruct HI as [HA HR0 HC]. set (s' := step cfg s o) in *. set (ob := observe s') in *.
+  constructor.
+  - apply Inv_next, HA.
+  - unfold track. cbv zeta.
+    assert (Eev : o_events ob = rev (out s')) by reflexivity. assert (Esn : o_snap ob = snapshot s') by reflexivity. rewrite Eev, Esn.
+    set (m1 := fold_left track_ev (rev (out s')) (track_op cfg m o ob)) in *.
+    set (m2 := fold_left (track_offer ob) (rev (out s')) m1). set (m3 := fold_left (track_idle_stamp (o_snap (m_prev m))) (snapshot s') m2).
+    destruct (offer_keep ob (rev (out s')) m1) as (O1 & O2 & O3). destruct (stamp_keep (o_snap (m_prev m)) (snapshot s') m2) as (S1 & S2' & S3).
+    fold m2 in O1, O2, O3. fold m3 in S1, S2', S3.
+    apply (R2_post m1); cbn [m_reqs m_keys m_i m_conns set_m_prev set_m_i].
+    + congruence.
+    + congruence.
+    + rewrite S3, O3. lia.
+    + intros c y Hy. destruct (conns_fix_offer ob (rev (out s')) m1 c y Hy) as (y1 & Hy1 & F1). fold m2 in Hy1.
+      destruct (conns_fix_stamp (o_snap (m_prev m)) (snapshot s') m2 c y1 Hy1) as (y2 & Hy2 & F2). exists y2. split; [exact Hy2|].
+      destruct F1 as (A1 & A2 & A3), F2 as (B1 & B2 & B3). repeat split; congruence.
+    + exact HR.
+  - eapply HD.pool.CoreC05.Inv_track; [apply HD.pool.CoreC05.G_step; exact HC|reflexivity].
+Qed.
+
+Lemma Inv2_init : Inv2 m0 init.
+Proof.
+  constructor; [apply Inv_init| |apply HD.pool.CoreC05.Inv_init].
+  assert (Gt : forall t, get_tok init t = empty_tok) by (intros [|[|?]]; reflexivity).
+  constructor; cbn; unfold get_req, get_dial, get_conn, mk; cbn; auto; try (intros [|?]; cbn; intros; discriminate); try (intros; lia).
+  - intros _ [|?] ck d E; discriminate E.
+  - intros _ [|?] d _ E; discriminate E.
+  - intros t x c a E. rewrite Gt in E. discriminate E.
+  - intros t x E. rewrite Gt in E. discriminate E.
+  - intros t c a E. rewrite Gt in E. destruct E.
+Qed.
+
+Lemma step_chk_S2 m s o : Inv2 m s -> chk_S2 cfg m o (observe (step cfg s o)) = true.
+Proof. intros HI. destruct (step_K2 m s o HI) as (He & _). unfold chk_S2. cbn [o_events observe]. exact He. Qed.
+
+Theorem mon_S2_trace_from : forall ops s m, Inv2 m s -> mon_steps chk_S2 cfg m ops (trace_from cfg s ops) = true.
+Proof.
+  induction ops as [|o ops IH]; intros s m HI; cbn [trace_from mon_steps]; [reflexivity|].
+  rewrite (step_chk_S2 m s o HI), (IH _ _ (Inv2_next m s o HI)). reflexivity.
+Qed.
 
 End S2.
